@@ -59,6 +59,14 @@ func (this *ONTHandler) SyncGenesisHeader(native *native.NativeService) error {
 	if err != nil {
 		return fmt.Errorf("ONTHandler SyncGenesisHeader, deserialize header err: %v", err)
 	}
+	//the trust root of a chain is installed once
+	keyHeights, err := GetKeyHeights(native, params.ChainID)
+	if err != nil {
+		return fmt.Errorf("ONTHandler SyncGenesisHeader, get key heights error: %v", err)
+	}
+	if len(keyHeights.HeightList) > 0 {
+		return fmt.Errorf("ONTHandler SyncGenesisHeader, genesis header had been initialized")
+	}
 	//block header storage
 	err = PutBlockHeader(native, params.ChainID, header)
 	if err != nil {
